@@ -581,6 +581,9 @@ func wrapAccessor(accessor eds.AccessorStreamer) eds.AccessorStreamer {
 }
 
 func mkdir(path string) error {
+	if err := verifFault("fs.mkdir", path); err != nil {
+		return fmt.Errorf("making directory '%s': %w", path, err)
+	}
 	err := os.Mkdir(path, defaultDirPerm)
 	if err != nil && !errors.Is(err, os.ErrExist) {
 		return fmt.Errorf("making directory '%s': %w", path, err)
@@ -591,6 +594,9 @@ func mkdir(path string) error {
 }
 
 func hardLink(filepath, linkpath string) error {
+	if err := verifFault("fs.link", linkpath); err != nil {
+		return fmt.Errorf("creating hardlink (%s -> %s): %w", filepath, linkpath, err)
+	}
 	err := os.Link(filepath, linkpath)
 	if err != nil {
 		verifMark("fs.link.err", 0, linkpath)
@@ -601,6 +607,9 @@ func hardLink(filepath, linkpath string) error {
 }
 
 func symlink(filepath, linkpath string) error {
+	if err := verifFault("fs.symlink", linkpath); err != nil {
+		return fmt.Errorf("creating symlink (%s -> %s): %w", filepath, linkpath, err)
+	}
 	err := os.Symlink(filepath, linkpath)
 	if err != nil {
 		verifMark("fs.symlink.err", 0, linkpath)
@@ -623,6 +632,9 @@ func exists(path string) (bool, error) {
 }
 
 func remove(path string) error {
+	if err := verifFault("fs.remove", path); err != nil {
+		return fmt.Errorf("removing file '%s': %w", path, err)
+	}
 	err := os.Remove(path)
 	if err != nil && !errors.Is(err, os.ErrNotExist) {
 		return fmt.Errorf("removing file '%s': %w", path, err)
